@@ -266,13 +266,18 @@ CLAIMED = {
         'become version, deprecation, stability, introspectable and doc (C03_tags); each target annotation appears as the corresponding '
         'GIR attribute on the kinds of element it belongs to and on no other (C03_target_annotations); after ANY sequence of rename-to '
         'requests every shadows has its shadowed-by and vice versa, in the data and in what the writer shows (C03_rename_to_pairs, '
-        'invariant by induction over the requests; refuted for the check as found by C03_rename_to_refuted_before_fix, fix faa1326). '
-        'Tie: generated worlds (functions, records with fields, enumeration, constants, a class with properties and signals) with '
+        'invariant by induction over the requests; refuted for the check as found by C03_rename_to_refuted_before_fix, fix faa1326); a '
+        'virtual method with a block of its own is documented by it, without one it carries exactly what its invoker\'s block says, '
+        'without invoker nothing (C03_virtual_method_blocks). '
+        'Tie: generated worlds (functions, records with fields, enumeration, constants, a class with properties, signals and a class '
+        'structure with three virtual methods whose invokers are found by name, named by (virtual SLOT), or absent) with '
         'comment blocks in shuffled order go through GtkDocCommentBlockParser, Transformer, GDumpParser, MainTransformer, '
         'IntrospectablePass and GIRWriter; doc, version, deprecation, stability, introspectable, attributes, kind-specific attributes '
-        'of every element and the shadows pairs are compared with Model.C03 inside Coq; crisp clauses are also judged directly.',
+        'of every element, of every virtual method (vfunc_meta) and the shadows pairs are compared with Model.C03 inside Coq; crisp '
+        'clauses (tags and their texts, description, attributes, inheritance of virtual methods) are also judged directly.',
    note='Trusted: Coq kernel+VM; stub lexer; dump given as XML. Not generated: (method)/(constructor) role selection (C04), '
-        'virtual-function blocks and invoker inheritance (the model has vfunc_meta, not yet tied), moved-to copies.',
+        'a virtual method that has a block of its own AND an invoker with a block (the implementation merges the two; the property is '
+        'silent), moved-to copies.',
    ref='DESIGN.md §4 C03'),
  'C04': dict(
    technique='Coq proof over a model of symbol naming and pairing (underscore names, longest type prefix, constructor/method/static decisions) + in-Coq correspondence through the real Transformer, GDumpParser, MainTransformer and GIRWriter',
